@@ -11,6 +11,7 @@ import (
 	"pgregory.net/rapid"
 
 	"verif/harness/model"
+	"verif/harness/sim"
 )
 
 // ---------- C13: downlink data notifications reach the control plane once per interval ----------
@@ -320,4 +321,143 @@ func init() {
 		registerReplay("C13", "wire", runC13)
 		registerReplay("C13", "unit", runC13Unit)
 	})
+}
+
+// ---- a burst of first reports for more sessions than the report queue holds ----
+
+type c13Flood struct {
+	N     int  `json:"n"`     // notifying sessions, each reported once in one burst
+	Twice bool `json:"twice"` // every report is sent twice back to back (the second one is within the interval)
+}
+
+func runC13Flood(c c13Flood, ev *Ev) error {
+	r, err := newRig(RigOpts{Notify: true})
+	if err != nil {
+		return fmt.Errorf("INFRA: %v", err)
+	}
+	defer r.Notify.Close()
+	if !r.Notify.WaitConn(5 * time.Second) {
+		return fmt.Errorf("INFRA: agent never connected to the notify socket")
+	}
+	run, err := r.newRunner(1)
+	if err != nil {
+		return fmt.Errorf("INFRA: %v", err)
+	}
+	defer run.Close()
+	if o := run.Exec(opAssoc(0, 1)); !o.Accepted {
+		return fmt.Errorf("INFRA: association not accepted")
+	}
+	p := run.Peers[0].P
+	for i := 0; i < c.N; i++ {
+		op := model.Op{Kind: "est", Peer: 0, Seq: uint32(10 + i), Sess: i, CPSEID: uint64(0x50000 + i)}
+		op.PDRs = []model.PDR{{ID: 1, Prec: 10, Src: "access", FTEID: true, TEID: uint32(0x100000 + i), N3: accessIP(), OHR: true, FAR: 1},
+			{ID: 7, Prec: 10, Src: "core", HasUE: true, UEIP: fmt.Sprintf("10.%d.%d.%d", 70+i/62500, (i/250)%250, i%250+1), FAR: 2}}
+		op.FARs = []model.FAR{{ID: 1, Action: model.ActFORW, HasFwd: true, DstIf: model.IfCore}, {ID: 2, Action: model.ActBUFF | model.ActNOCP}}
+		// no probe between the establishments: only the response matters here
+		if err := p.Send(model.Establishment(op.Seq, run.Peers[0].NodeID, op.CPSEID, run.Peers[0].IP, op)); err != nil {
+			return fmt.Errorf("INFRA: establishment %d: %v", i, err)
+		}
+		d, err := p.Recv(10 * time.Second)
+		if err != nil {
+			return fmt.Errorf("INFRA: establishment %d: %v", i, err)
+		}
+		m, perr := message.Parse(d.B)
+		er, ok := m.(*message.SessionEstablishmentResponse)
+		if perr != nil || !ok || er.UPFSEID == nil {
+			return fmt.Errorf("INFRA: establishment %d: unexpected response", i)
+		}
+		f, ferr := er.UPFSEID.FSEID()
+		if ferr != nil {
+			return fmt.Errorf("INFRA: establishment %d: %v", i, ferr)
+		}
+		run.Sess[i] = &sim.SessState{Idx: i, Peer: 0, CPSEID: op.CPSEID, UPSEID: f.SEID, Live: true}
+	}
+	p.Drain()
+	byCP := map[uint64]int{}
+	for i := 0; i < c.N; i++ {
+		byCP[run.Sess[i].CPSEID] = i
+	}
+	got := make([]int, c.N)
+	done := make(chan error, 1)
+	go func() {
+		n := 0
+		deadline := time.Now().Add(30 * time.Second)
+		quiet := time.Now()
+		for time.Now().Before(deadline) {
+			d, err := p.Recv(50 * time.Millisecond)
+			if err != nil {
+				if n >= c.N && time.Since(quiet) > 300*time.Millisecond {
+					break
+				}
+				if time.Since(quiet) > 3*time.Second {
+					break // nothing for three seconds: whatever is missing will not come
+				}
+				continue
+			}
+			quiet = time.Now()
+			m, perr := message.Parse(d.B)
+			sr, ok := m.(*message.SessionReportRequest)
+			if perr != nil || !ok {
+				done <- fmt.Errorf("unexpected datagram from the agent during the burst: %x", d.B)
+				return
+			}
+			i, known := byCP[sr.SEID()]
+			if !known {
+				done <- fmt.Errorf("Session Report Request addressed to SEID %#x, which is no session's CP SEID", sr.SEID())
+				return
+			}
+			got[i]++
+			n++
+		}
+		done <- nil
+	}()
+	b := make([]byte, 8)
+	for i := 0; i < c.N; i++ {
+		binary.LittleEndian.PutUint64(b, run.Sess[i].UPSEID)
+		reps := 1
+		if c.Twice {
+			reps = 2
+		}
+		for k := 0; k < reps; k++ {
+			if err := r.Notify.Write(b); err != nil {
+				return fmt.Errorf("INFRA: notify write: %v", err)
+			}
+		}
+	}
+	if err := <-done; err != nil {
+		return err
+	}
+	missing, dup, firstMissing := 0, 0, -1
+	for i, g := range got {
+		if g == 0 {
+			missing++
+			if firstMissing < 0 {
+				firstMissing = i
+			}
+		}
+		if g > 1 {
+			dup++
+		}
+	}
+	if missing > 0 {
+		return fmt.Errorf("a burst of first reports for %d sessions: %d sessions were never notified (first: session %d) - a first report must never be suppressed", c.N, missing, firstMissing)
+	}
+	if dup > 0 {
+		return fmt.Errorf("a burst of reports for %d sessions: %d sessions were notified more than once within the interval", c.N, dup)
+	}
+	ev.Label(fmt.Sprintf("flood/twice=%v", c.Twice))
+	ev.Case(c, c.N > 1024, c.N)
+	return nil
+}
+
+func TestC13Flood(t *testing.T) {
+	ev := newEv("C13")
+	ev.Rule = "fresh BESS agent per case with 3000-6000 sessions whose downlink rule asks for notification; one burst of datapath reports, one (or two back to back) per session, written as fast as the notify socket takes them - more first reports than the agent's report queue (1024) holds; every session must be notified exactly once; non-trivial = more than 1024 sessions"
+	runProp(t, ev, "flood", true, func(rt *rapid.T) c13Flood {
+		return c13Flood{N: rapid.IntRange(3000, 6000).Draw(rt, "n"), Twice: rapid.Bool().Draw(rt, "twice")}
+	}, runC13Flood)
+}
+
+func init() {
+	registerFns = append(registerFns, func() { registerReplay("C13", "flood", runC13Flood) })
 }
